@@ -1,7 +1,7 @@
 //! C04 — state identity is faithful: distinct states never merge, equal ones never split.
 
 use crate::engine::*;
-use crate::rechash::stream;
+use crate::rechash::{raw_stream, stream};
 use crate::refsys::*;
 use crate::runner::*;
 use crate::{ensure, fail};
@@ -26,6 +26,7 @@ fn law<T: Hash + PartialEq + std::fmt::Debug>(a: &T, b: &T, equal: bool, what: &
     } else {
         ensure!(a != b, format!("c04/{}/different-values-compare-equal", what), "{:?} and {:?} differ but == says equal", a, b);
         ensure!(sa != sb, format!("c04/{}/different-values-hash-identically", what), "{:?} and {:?} differ but feed identical bytes to the hasher (a collision under every hasher)", a, b);
+        ensure!(raw_stream(a) != raw_stream(b), format!("c04/{}/different-values-same-byte-stream", what), "{:?} and {:?} differ but feed the same concatenated byte stream to the hasher, only split at other places (a collision under every hasher that ignores write boundaries, e.g. the default SipHash)", a, b);
     }
     Ok(())
 }
@@ -500,6 +501,17 @@ impl SubCheck for Misc {
         // dense maps
         let (da, db): (DenseNatMap<Id, u32>, DenseNatMap<Id, u32>) = (DenseNatMap::from(c.a.clone()), c.b.iter().copied().enumerate().map(|(i, v)| (Id::from(i), v)).rev().collect());
         law(&da, &db, c.a == c.b, "dense-nat-map")?;
+        // two maps / two clocks side by side: the same elements split at different places
+        // (collections must delimit themselves, or neighbours can trade elements unnoticed)
+        {
+            let cat: Vec<u32> = c.a.iter().chain(c.b.iter()).map(|v| v + 1).collect();
+            let (i, j) = (idx8(c.pad_a.wrapping_mul(97), cat.len() + 1), idx8(c.pad_b.wrapping_mul(89).wrapping_add(c.pad_a), cat.len() + 1));
+            let maps = |k: usize| -> (DenseNatMap<Id, u32>, DenseNatMap<Id, u32>) { (DenseNatMap::from(cat[..k].to_vec()), DenseNatMap::from(cat[k..].to_vec())) };
+            law(&maps(i), &maps(j), i == j, "adjacent-dense-nat-maps")?;
+            let clocks = |k: usize| (VectorClock::from(cat[..k].to_vec()), VectorClock::from(cat[k..].to_vec()));
+            law(&clocks(i), &clocks(j), i == j, "adjacent-vector-clocks")?;
+            cov.label_if(i != j, "adjacent_collections_split_differently");
+        }
         // networks assembled through the public variants (canonical forms only) vs constructors
         let envs: Vec<(usize, usize, u8)> = c.a.iter().enumerate().map(|(i, v)| (i % 2, (*v as usize) % 2, (*v % 3) as u8)).collect();
         let via_ctor = Network::new_unordered_nonduplicating(envs.iter().map(env_of));
@@ -537,7 +549,7 @@ impl SubCheck for Misc {
         Ok(())
     }
     fn mandatory(&self) -> Vec<&'static str> {
-        vec!["trailing_zero", "testers_equal", "testers_differ"]
+        vec!["trailing_zero", "testers_equal", "testers_differ", "adjacent_collections_split_differently"]
     }
 }
 
